@@ -73,11 +73,18 @@ def roots_of(x):
 class Eval(object):
     """affine evaluation of expressions over a state {loc: affine form}; unknown locations read as their own entry atom"""
 
-    def __init__(self, prefix):
+    def __init__(self, prefix, model=None, lossless_casts=False):
         self.prefix = prefix
         self.ncall = 0
+        self.m = model
+        self.fields = {}          # memory path text -> (record, field)
+        self.lossless = lossless_casts
+        self.events = None        # list collecting call events while a path is evaluated
+        self.preserve = ()        # records assumed untouched by callees (stated assumption of the rule that sets it)
 
     def read(self, st, loc):
+        if loc[0] == 'm' and len(loc) > 2:
+            self.fields[loc[1]] = loc[2]
         v = st.get(loc[:2])
         if v is not None:
             return v
@@ -92,7 +99,7 @@ class Eval(object):
         if k == 'cast':
             v = self.ev(x.kids[0], st)
             it, src = int_type(x.cty), int_type(x.kids[0].cty)
-            if is_lin(v) and it is not None and src is not None and it[0] < src[0] and v[1]:
+            if is_lin(v) and it is not None and src is not None and it[0] < src[0] and v[1] and not self.lossless:
                 return TOP
             return v
         if k == 'ref':
@@ -130,14 +137,26 @@ class Eval(object):
             return
         if k == 'var':
             if x.kids:
-                st[('v', x.ref)] = self.ev(x.kids[0], st)
+                i0 = strip(x.kids[0])
+                if i0 is not None and i0.k == 'call':
+                    self.assign(i0, st)
+                    st[('v', x.ref)] = TOP
+                else:
+                    st[('v', x.ref)] = self.ev(x.kids[0], st)
             return
         if k == 'bin' and x.op in ('=', '+=', '-='):
             l = loc_of(x.kids[0])
-            v = self.ev(x.kids[1], st)
+            rhs = strip(x.kids[1])
+            if rhs is not None and rhs.k == 'call':
+                self.assign(rhs, st)
+                v = TOP
+            else:
+                v = self.ev(x.kids[1], st)
             if x.op != '=':
                 v = ladd(self.ev(x.kids[0], st), v, 1 if x.op == '+=' else -1)
             if l is not None:
+                if l[0] == 'm':
+                    self.fields[l[1]] = l[2]
                 st[l[:2]] = v
                 self.havoc_prefix(st, l)
             return
@@ -152,12 +171,26 @@ class Eval(object):
                 st[l[:2]] = ladd(self.ev(x.kids[0], st), lin({}, 1), -1 if '--' in x.op else 1)
             return
         if k == 'call':
-            # the callee may write anything reachable from its pointer arguments
+            from canalyze.ir import callee_name
+            if self.events is not None:
+                self.events.append((callee_name(x), tuple(self.ev(a, st) for a in x.kids[1:]), x.line))
+            mods, unknown = (frozenset(), True)
+            if self.m is not None:
+                mods, unknown = self.m.call_modset(x)
+            for key in list(st):
+                if key[0] == 'm':
+                    f = self.fields.get(key[1])
+                    if f is not None and f[0] in self.preserve:
+                        continue
+                    if unknown or f is None or f in mods:
+                        st[key] = TOP
+            # locals whose address is handed over may be written
             for a in x.kids[1:]:
-                for r in roots_of(a):
-                    for key in list(st):
-                        if key[0] == 'm':
-                            st[key] = TOP
+                a0 = strip(a)
+                if a0 is not None and a0.k == 'un' and a0.op == '&':
+                    l = loc_of(a0.kids[0])
+                    if l is not None:
+                        st[l[:2]] = TOP
             self.called = True
             return
         if k == 'cast':
@@ -309,7 +342,7 @@ def entry_atom_name(g, l, fn_names):
     return '@' + (fn_names.get(l[1], '?') if l[0] == 'v' else l[1])
 
 
-def lockstep(ctx):
+def lockstep(ctx, minimum=8):
     m = ctx.m
     n_loops = 0
     n_skipped = 0
@@ -412,7 +445,7 @@ def lockstep(ctx):
                 ctx.find(props, RULE1, fname, key, m.loc(fname, lp.line), '%s, copy loop at line %d: %s' % (fname, lp.line, msg))
     ctx.inst('RF17.copy-loops', n_loops)
     ctx.inst('RF17.copy-loops-skipped', n_skipped)
-    ctx.require_min(P_GENERIC, RULE1, n_loops, 8, 'byte-copy loops analysed')
+    ctx.require_min(P_GENERIC, RULE1, n_loops, minimum, 'byte-copy loops analysed')
 
 
 # ------------------------------------------------------------------ whole-function affine post-state (streaming accessors)
@@ -426,63 +459,114 @@ def trip_count(g, lp, ind, ev, st, names):
         return fresh, False
     a, b = strip(c.kids[0]), strip(c.kids[1])
     la, lb = loc_of(a), loc_of(b)
-    ka = ind.get(la[:2]) if la is not None else 0
-    kb = ind.get(lb[:2]) if lb is not None else 0
+    ka = ind.get(la[:2], 0) if la is not None else 0
+    kb = ind.get(lb[:2], 0) if lb is not None else 0
     va, vb = ev.ev(a, st), ev.ev(b, st)
     if not (is_lin(va) and is_lin(vb)):
         return fresh, False
     # counter > 0 / counter != 0 with the counter going down by one
-    if c.op in ('>', '!=') and ka == -1 and (kb in (0, None) and vb == lin({}, 0)):
+    if c.op in ('>', '!=') and ka == -1 and kb == 0 and vb == lin({}, 0):
         return va, True
-    if c.op in ('<', '!=') and kb == -1 and (ka in (0, None) and va == lin({}, 0)):
+    if c.op in ('<', '!=') and kb == -1 and ka == 0 and va == lin({}, 0):
         return vb, True
     # i < bound with i going up by one and the bound fixed
-    if c.op in ('<', '!=') and ka == 1 and kb in (0,) and lb is not None or (c.op in ('<', '!=') and ka == 1 and b.k == 'int'):
+    if c.op in ('<', '!=') and ka == 1 and kb == 0:
         return ladd(vb, va, -1), True
-    if c.op in ('>', '!=') and kb == 1 and ka in (0,) and la is not None:
+    if c.op in ('>', '!=') and kb == 1 and ka == 0:
         return ladd(va, vb, -1), True
     return fresh, False
 
 
-def position(ctx):
-    m = ctx.m
-    n = 0
-    for fname in sorted(STREAM):
-        fld = STREAM[fname]
-        m.need(fname)
-        props = ['C06', 'C02', 'C03']
-        g = m.cfg(fname)
-        names = {}
-        for nd in g.nodes:
-            if nd.x is not None:
-                for c in walk(nd.x):
-                    if c.k in ('ref', 'var') and c.ref is not None:
-                        names[c.ref] = c.name
+def _names_of(m, fname):
+    g = m.cfg(fname)
+    names = {}
+    for nd in g.nodes:
+        if nd.x is not None:
+            for c in walk(nd.x):
+                if c.k in ('ref', 'var') and c.ref is not None:
+                    names[c.ref] = c.name
+    for prm in m.funcs[fname].params:
+        names[prm[3]] = prm[0]
+    return names
+
+
+def _rename_atoms(v, old, new):
+    """rename entry atoms `@old->...` / `@old....` to `@new...` in an affine form"""
+    if not is_lin(v):
+        return v
+    d = {}
+    for (a_, k) in v[1]:
+        if a_.startswith('@' + old + '->') or a_.startswith('@' + old + '.') or a_ == '@' + old:
+            a_ = '@' + new + a_[1 + len(old):]
+        d[a_] = d.get(a_, 0) + k
+    return lin(d, v[2])
+
+
+def _helper_call(m, x):
+    """(call node, target lvalue or None) when statement x is `H(...)`, `lhs = H(...)` or `T v = H(...)` with H a helper the
+    rule tables do not know (extracted from a known function): its body is part of the caller's behaviour"""
+    from canalyze.ir import callee_name
+    c = None
+    tgt = None
+    x0 = x
+    if x0.k == 'decl' and len(x0.kids) == 1:
+        x0 = x0.kids[0]
+    if x0.k == 'call':
+        c = x0
+    elif x0.k == 'bin' and x0.op == '=' and strip(x0.kids[1]) is not None and strip(x0.kids[1]).k == 'call':
+        c, tgt = strip(x0.kids[1]), x0.kids[0]
+    elif x0.k == 'var' and x0.kids and strip(x0.kids[0]) is not None and strip(x0.kids[0]).k == 'call':
+        c, tgt = strip(x0.kids[0]), x0
+    elif x0.k == 'cast' and strip(x0) is not None and strip(x0).k == 'call':
+        c = strip(x0)
+    if c is None:
+        return None
+    nm = callee_name(c)
+    if nm is None or not m.is_new_helper(nm):
+        return None
+    return c, tgt, nm
+
+
+def affine_paths(m, fname, lossless=False, preserve=()):
+    """evaluate the whole function to affine post-states: [(final state, bytes moved, #copy loops, return line, call events)],
+    the Eval used (for entry-atom names) and the name map.  Loops are summarised by their induction variables; calls to
+    helpers the rule tables do not know are evaluated through their bodies."""
+    ev = Eval('@', model=m, lossless_casts=lossless)
+    ev.preserve = tuple(preserve)
+    budget = [0]
+
+    def run_fn(fn_name, st0, moved0, nloops0, events0, depth):
+        g = m.cfg(fn_name)
+        names = _names_of(m, fn_name)
         loops = {}
         for lp in g.loops:
             if is_fake(g, lp):
                 continue
-            res = analyse_loop(m, fname, g, lp)
-            loops[lp.head] = (lp, res)
-        ev = Eval('@')
+            loops[lp.head] = (lp, analyse_loop(m, fn_name, g, lp))
         finals = []
-        work = [(g.entry.id, {}, lin({}, 0), 0)]
-        steps = 0
+        seen = set()
+        work = [(g.entry.id, st0, moved0, nloops0, events0)]
         while work:
-            nid, st, moved, nloops = work.pop()
-            steps += 1
-            if steps > 4000:
+            nid, st, moved, nloops, events = work.pop()
+            key = (nid, frozenset(st.items()), moved, nloops, events)
+            if key in seen:
+                continue
+            seen.add(key)
+            budget[0] += 1
+            if budget[0] > 80000:
                 raise AnalysisBroken('RF17: path explosion in %s' % fname)
             node = g.nodes[nid]
             if node.kind in ('ret', 'exit'):
-                if node.kind == 'ret':
-                    finals.append((st, moved, nloops, node.line))
+                rv = None
+                if node.kind == 'ret' and node.x is not None and node.x.kids:
+                    rv = ev.ev(node.x.kids[0], st)
+                finals.append((st, moved, nloops, node.line, events, rv))
                 continue
             if nid in loops:
                 lp, res = loops[nid]
                 st = dict(st)
                 if 'skip' in res:
-                    raise AnalysisBroken('RF17: loop at line %d of %s cannot be summarised (%s)' % (lp.line, fname, res['skip']))
+                    raise AnalysisBroken('RF17: loop at line %d of %s cannot be summarised (%s)' % (lp.line, fn_name, res['skip']))
                 ind = {}
                 for l, vals in res['steps'].items():
                     nm = names.get(l[1], '?') if l[0] == 'v' else l[1]
@@ -496,25 +580,102 @@ def position(ctx):
                     if k is None:
                         st[l] = TOP
                     elif k:
-                        cur = ev.read(st, l + ((names.get(l[1], '?'),) if l[0] == 'v' else (None,)))
+                        cur = ev.read(st, l + ((names.get(l[1], '?'),) if l[0] == 'v' else ()))
                         st[l] = ladd(cur, lscale(N, k))
                 if copies and 0 not in copies:
                     moved = ladd(moved, lscale(N, max(copies)))
                     nloops += 1
                 elif copies - {0}:
                     moved = TOP
-                # continue at the loop exit(s)
                 for cn in lp.cond_nodes:
                     for (t, lab) in g.nodes[cn].succ:
                         if t not in lp.nodes:
-                            work.append((t, dict(st), moved, nloops))
+                            work.append((t, dict(st), moved, nloops, events))
                 continue
             st = dict(st)
+            outs = None
             if node.kind == 'stmt' and node.x is not None:
-                ev.assign(node.x, st)
-            for (t, lab) in node.succ:
-                work.append((t, st, moved, nloops))
-        # obligations
+                hc = _helper_call(m, node.x) if depth < 3 else None
+                if hc is not None:
+                    c, tgt, hname = hc
+                    hfn = m.funcs[hname]
+                    sub = dict(st)
+                    ren = []          # (callee parameter name, caller variable name) for pointer arguments
+                    for i, prm in enumerate(hfn.params):
+                        a = c.kids[1 + i] if 1 + i < len(c.kids) else None
+                        a0 = strip(a) if a is not None else None
+                        if is_pointer(prm[2]):
+                            if a0 is not None and a0.k == 'ref' and a0.refk in ('VarDecl', 'ParmVarDecl'):
+                                if a0.name != prm[0]:
+                                    ren.append((prm[0], a0.name))
+                                sub[('v', prm[3])] = ev.ev(a, st)
+                            else:
+                                raise AnalysisBroken('RF17: helper %s receives the pointer expression %s (line %d of %s): not modelled' % (
+                                    hname, show(a) if a is not None else '?', node.line, fn_name))
+                        else:
+                            sub[('v', prm[3])] = ev.ev(a, st) if a is not None else TOP
+                    if ren:
+                        s2 = {}
+                        for k_, v_ in sub.items():
+                            if k_[0] == 'm':
+                                for (pn, vn) in ren:
+                                    if k_[1].startswith(vn + '->') or k_[1].startswith(vn + '.'):
+                                        ev.fields[pn + k_[1][len(vn):]] = ev.fields.get(k_[1])
+                                        k_ = ('m', pn + k_[1][len(vn):])
+                            for (pn, vn) in ren:
+                                v_ = _rename_atoms(v_, vn, pn)
+                            s2[k_] = v_
+                        sub = s2
+                    outs = []
+                    for (fs, mv, nl, ln, evs, rv) in run_fn(hname, sub, moved, nloops, events, depth + 1):
+                        back = {}
+                        for k_, v_ in fs.items():
+                            if k_[0] == 'm':
+                                for (pn, vn) in ren:
+                                    if k_[1].startswith(pn + '->') or k_[1].startswith(pn + '.'):
+                                        ev.fields[vn + k_[1][len(pn):]] = ev.fields.get(k_[1])
+                                        k_ = ('m', vn + k_[1][len(pn):])
+                            for (pn, vn) in ren:
+                                v_ = _rename_atoms(v_, pn, vn)
+                            back[k_] = v_
+                        if tgt is not None:
+                            if tgt.k == 'var':
+                                back[('v', tgt.ref)] = rv if rv is not None else TOP
+                            else:
+                                l = loc_of(tgt)
+                                if l is not None:
+                                    back[l[:2]] = rv if rv is not None else TOP
+                        outs.append((back, mv, nl, evs))
+                else:
+                    ev.events = []
+                    ev.assign(node.x, st)
+                    if ev.events:
+                        events = events + tuple(ev.events)
+                    ev.events = None
+            if outs is None:
+                outs = [(st, moved, nloops, events)]
+            for (st_, mv_, nl_, evs_) in outs:
+                for (t, lab) in node.succ:
+                    if node.kind == 'br' and node.x is not None and strip(node.x).k == 'int' and lab in (True, False) \
+                            and lab != bool(strip(node.x).val):
+                        continue
+                    work.append((t, st_, mv_, nl_, evs_))
+        return finals
+
+    fin = run_fn(fname, {}, lin({}, 0), 0, (), 0)
+    return [(st, mv, nl, ln, evs) for (st, mv, nl, ln, evs, rv) in fin], ev, _names_of(m, fname)
+
+
+def position(ctx, table=None, minimum=4):
+    m = ctx.m
+    n = 0
+    table = table or STREAM
+    for fname in sorted(table):
+        fld = table[fname]
+        m.need(fname)
+        props = ['C06', 'C02', 'C03']
+        g = m.cfg(fname)
+        finals, ev, names = affine_paths(m, fname)
         posloc = None
         for nd in g.nodes:
             if nd.x is None:
@@ -526,7 +687,7 @@ def position(ctx):
             ctx.broke(props, 'RF17: %s does not access its position field %s.%s' % (fname, fld[0], fld[1]))
             continue
         outcomes = {}
-        for (st, moved, nloops, line) in finals:
+        for (st, moved, nloops, line, events) in finals:
             v = st.get(posloc[:2])
             adv = lin({}, 0) if v is None else (ladd(v, atom('@' + posloc[1]), -1) if is_lin(v) else TOP)
             key = ('copied' if nloops else 'nothing copied')
@@ -544,7 +705,91 @@ def position(ctx):
                          'a continued access (segmented / block transfer of this object) then reads or writes the wrong bytes' % (
                              fname, line, posloc[1], adv, moved))
     ctx.inst('RF17.position-outcomes', n)
-    ctx.require_min(['C06'], RULE2, n, 4, 'return classes of the streaming accessors')
+    ctx.require_min(['C06'], RULE2, n, minimum, 'return classes of the streaming accessors')
+
+
+# ------------------------------------------------------------------ segment accounting of the SDO server
+RULE3 = 'RF17-account'
+# handler -> (object accessor whose length argument is checked, index of that argument, progress counter (record, field),
+#             buffered-bytes field or None)
+ACCOUNT = {
+    'COSdoDownloadSegmented': ('COObjWrBufCont', 3, ('CO_SDO_SEG', 'Num'), ('CO_SDO_BUF', 'Num')),
+    'COSdoUploadSegmented': ('COObjRdBufCont', 3, ('CO_SDO_SEG', 'Num'), None),
+}
+
+
+def account(ctx):
+    """Segmented transfer, one frame: the number of bytes handed to / fetched from the object equals the number of bytes the
+    copy loop moved between frame and buffer (plus what the buffer already held), and the transfer's progress counter
+    Seg.Num advances by exactly that number - or is reset to 0 when the transfer closes.  Seg.Num is what the NEXT frame
+    uses to compute how many bytes are still expected (`Seg.Size - Seg.Num`): a counter that lags lets the last segment
+    write / send frame padding as data."""
+    m = ctx.m
+    n = 0
+    for fname in sorted(ACCOUNT):
+        acc, argi, prog, buffered = ACCOUNT[fname]
+        m.need(fname)
+        props = ['C02'] if 'Download' in fname else ['C03']
+        finals, ev, names = affine_paths(m, fname, lossless=True, preserve=('CO_SDO_SEG', 'CO_SDO_BUF'))
+        ctx.exception(RULE3, fname, 'assumptions: the object accessors called by the handler do not modify the server\'s CO_SDO_SEG / '
+                                   'CO_SDO_BUF records (a transfer of more than 4 bytes never targets the SDO parameter objects); '
+                                   'narrowing casts of byte counts are lossless (decided separately by RF7)')
+        fn = m.funcs[fname]
+        g = m.cfg(fname)
+        progloc = bufloc = None
+        for nd in g.nodes:
+            if nd.x is None:
+                continue
+            for c in walk(nd.x):
+                if c.k == 'mem' and c.field == prog:
+                    progloc = loc_of(c)
+                if buffered is not None and c.k == 'mem' and c.field == buffered:
+                    bufloc = loc_of(c)
+        if progloc is None:
+            ctx.broke(props, 'RF17-account: %s does not access %s.%s' % (fname, prog[0], prog[1]))
+            continue
+        held = atom('@' + bufloc[1]) if bufloc is not None else lin({}, 0)
+        outcomes = {}
+        for (st, moved, nloops, line, events) in finals:
+            calls = [e for e in events if e[0] == acc]
+            if not nloops:
+                # refusal before any byte is moved between frame and buffer (bad toggle, no transfer, failed accessor):
+                # the progress counter is unchanged or the transfer is closed
+                v = st.get(progloc[:2])
+                ok = v is None or v == atom('@' + progloc[1]) or v == lin({}, 0)
+                outcomes.setdefault(('refused', ok, 'progress %s' % ('unchanged' if v is None else _show(v)),
+                                     '' if ok else 'no byte is moved but the progress counter %s becomes %s' % (progloc[1], _show(v))), line)
+                continue
+            total = ladd(held, moved) if (is_lin(held) and is_lin(moved)) else TOP
+            okc = True
+            why = ''
+            for e in calls:
+                a = e[1][argi] if len(e[1]) > argi else TOP
+                if a == TOP or total == TOP or a != total:
+                    okc = False
+                    why = 'the object accessor %s is called with length %s while the frame carries %s bytes (plus %s already buffered)' % (
+                        acc, _show(a), _show(moved), _show(held))
+            if len(calls) != 1:
+                okc = False
+                why = why or '%d calls of %s on this path' % (len(calls), acc)
+            v = st.get(progloc[:2])
+            want = ladd(atom('@' + progloc[1]), total) if total != TOP else TOP
+            okp = (v is not None and is_lin(v) and (v == lin({}, 0) or v == want))
+            if not okp:
+                why = (why + '; ' if why else '') + 'the progress counter %s ends at %s, required 0 (transfer closed) or %s' % (
+                    progloc[1], 'its entry value' if v is None else _show(v), _show(want))
+            outcomes.setdefault(('frame', okc and okp, 'moved %s' % _show(moved), why), line)
+        for (key, ok, what, why), line in sorted(outcomes.items(), key=str):
+            n += 1
+            site = '%s: return at line %d (%s, %s)' % (fname, line, key, what)
+            if ok:
+                ctx.ob(props, RULE3, fname, site, 'accessor length == bytes moved, progress counter advances by it or is reset')
+            else:
+                ctx.ob(props, RULE3, fname, site, None)
+                ctx.find(props, RULE3, fname, 'account:%s:%s' % (key, 'length' if 'is called with length' in why else ('calls' if ' calls of ' in why else 'progress')), m.loc(fname, line),
+                         '%s, path to the return at line %d: %s' % (fname, line, why or what))
+    ctx.inst('RF17.account-outcomes', n)
+    ctx.require_min(['C02', 'C03'], RULE3, n, 4, 'return classes of the segmented transfer handlers')
 
 
 def _show(v):
@@ -560,6 +805,41 @@ def _show(v):
     return s[2:] if s.startswith('+ ') else s
 
 
+class _Probe(object):
+    """throw-away context for the positive controls: collects findings without touching the real run"""
+
+    def __init__(self, m):
+        from canalyze import report
+        self.c = report.Ctx(m)
+
+
+def controls(ctx):
+    from rules.rf16_delta import fixture_model
+    from canalyze import report
+    fm = fixture_model(ctx)
+    global STREAM
+    # lockstep control
+    probe = report.Ctx(fm)
+    lockstep(probe, minimum=0)
+    keys = set((f.func, f.key) for f in probe.findings)
+    want = ('CTL_CopyStep2', 'step:src')
+    fired = want in keys
+    ctx.controls.append({'rule': RULE1, 'fixture': 'fixtures/controls.c:CTL_CopyStep2', 'expected_finding': want[1], 'fired': fired})
+    if not fired:
+        ctx.broke(P_GENERIC, '%s: positive control CTL_CopyStep2 did not fire (got %s)' % (RULE1, sorted(keys)))
+    # position control
+    probe = report.Ctx(fm)
+    position(probe, table={'CTL_DomainRead': ('CO_OBJ_DOM', 'Offset')}, minimum=0)
+    keys = set((f.func, f.key) for f in probe.findings)
+    want = ('CTL_DomainRead', 'position:copied')
+    fired = want in keys
+    ctx.controls.append({'rule': RULE2, 'fixture': 'fixtures/controls.c:CTL_DomainRead', 'expected_finding': want[1], 'fired': fired})
+    if not fired:
+        ctx.broke(['C06'], '%s: positive control CTL_DomainRead did not fire (got %s)' % (RULE2, sorted(keys)))
+
+
 def run(ctx):
+    controls(ctx)
     lockstep(ctx)
     position(ctx)
+    account(ctx)
